@@ -72,8 +72,8 @@ TEXT = {
         engine="sched (E3) + x86mini (E4)",
         design_ref="DESIGN.md §3 C08",
         technique="stateless model checking of the real spinlock (Go methods on an atomic shim + the real assembly text run by an interpreter) under a controlled scheduler: all schedules up to a preemption bound plus an unbounded state-pruned pass, with a happens-before race monitor",
-        text="13 (thorough 19) thread configurations of 2-3 (4) threads running acquire/try-acquire/release programs, with yieldFn nil and set, are explored exhaustively for preemption bounds 0..3 (4) and without bound under state pruning. Oracles on every execution: at most one task inside the lock at every step; Acquire/TryToAcquire(true) never return while another task is between acquire and release; TryToAcquire(false) only while someone holds the lock and leaves the word at 1; the counter updated inside the lock equals the number of completed critical sections and its accesses are ordered by happens-before (visibility); no deadlock / livelock (spin detection + step horizon); the lock is free at the end. The interpreter is bound to the hardware by running all 1092 sequential traces of length <=6 on both the interpreted and the assembled routine against the sequential lock model.",
-        note="Sequentially consistent exploration (see DESIGN.md §4 for the TSO argument); 2-4 threads x <=3 operations stand for 'any number of tasks'; the 16-thread free-running run on the real assembly is a sampled supplement, never the verdict.",
+        text="13 (thorough 19) thread configurations of 2-3 (4) threads running acquire/try-acquire/release programs, with yieldFn nil and set, are explored exhaustively for preemption bounds 0..3 (4) and without bound under state pruning. Oracles on every execution: at most one task inside the lock at every step; Acquire/TryToAcquire(true) never return while another task is between acquire and release; TryToAcquire(false) only if somebody held the lock, or was inside a blocking Acquire, at some moment of the call (the call may take several atomic steps); the counter updated inside the lock equals the number of completed critical sections and its accesses are ordered by happens-before (visibility); no deadlock / livelock (spin detection + step horizon); the lock is free at the end (judged by a try-acquire on a copy: no oracle reads the lock word's representation). One directed schedule per yieldFn setting runs 257 tasks that call Acquire together in lock step (more callers than an 8-bit count holds). The interpreter is bound to the hardware by running all 1092 sequential traces of length <=6 on both the interpreted and the assembled routine against the sequential lock model.",
+        note="Sequentially consistent exploration (see DESIGN.md §4 for the TSO argument; plain loads of the lock word are acquire edges for the race monitor, as on x86); the interpreter covers MOV/XCHG/XADD/CMPXCHG/arithmetic/shift/compare (8-64 bit), stack slots and the conditional jumps - an instruction outside it ends the check with exit 2 (no verdict), never with a violation; 2-4 threads x <=3 operations stand for 'any number of tasks'; the 16-thread free-running run on the real assembly is a sampled supplement, never the verdict.",
     ),
     "C09": dict(
         engine="sched (E3) + x86mini (E4)",
